@@ -59,7 +59,7 @@ MANIFEST = {
 
 TASK = "checks.c36"
 MODELS = os.path.join(os.path.dirname(os.path.dirname(os.path.abspath(__file__))), "models")
-TLC_N_QUICK = [2, 3]
+TLC_N_QUICK = [2]
 TLC_N_THOROUGH = [2, 3]
 MAX_TLC_PATHS = 5000
 TLC_TIMEOUT = 300
@@ -196,6 +196,8 @@ def wk_run(arg):
         if _is_lock_error(o) or _is_lock_error(e):
             _API.flag("blocked")
         raise
+    finally:
+        _ARMED = False
     _LIVE.append(s)           # sessions are long-lived objects: keep it (and its connection) until the schedule ends
     return {"session_id": _jsonable(s.session_id)}
 
